@@ -39,11 +39,20 @@ def run(run, binfo):
                         for allow in (False, True):
                             for overridden in (False, True):
                                 for by in ('name', 'obj'):
-                                    for rep in ('dict', 'context', 'policy_values'):
-                                        if rep != 'dict' and spelling == 'system':
+                                    for rep in ('dict', 'context', 'policy_values', 'dict+file'):
+                                        from_file = rep == 'dict+file'
+                                        if from_file:
+                                            if not overridden or by != 'name':
+                                                continue   # the override sits in a real policy file, loaded
+                                            rep = 'dict'
+                                        if rep == 'context' and spelling == 'system':
                                             continue   # a context only has system_scope
+                                        if rep == 'policy_values' and spelling == 'system':
+                                            if not has_sys:
+                                                continue
+                                            rep = 'policy_values+system'   # the service adds the legacy key itself
                                         creds = {'roles': ['member']}
-                                        if has_sys:
+                                        if has_sys and rep != 'policy_values+system':
                                             creds[spelling] = 'all'
                                         if has_dom:
                                             creds['domain_id'] = 'd1'
@@ -62,6 +71,10 @@ def run(run, binfo):
                                                       registered=registered, enforce_scope=es, do_raise=dr)
                                         c['_allow'] = allow
                                         c['_reg_check'] = reg_check
+                                        if registered:
+                                            c['registered_check'] = {'pol': reg_check}
+                                        if from_file:
+                                            c['from_file'] = True
                                         if rep != 'dict':
                                             c['creds_as'] = rep
                                         cases.append(c)
@@ -86,10 +99,13 @@ def run(run, binfo):
     model_cases = []
     for c in cases:
         m = dict(c)
-        if c.get('creds_as') in ('context', 'policy_values'):
+        if c.get('creds_as') in ('context', 'policy_values', 'policy_values+system'):
             pv = convert_creds('policy_values', c['creds'])
             m['creds'] = {k: pv[k] for k in pv}
+            if c['creds_as'] == 'policy_values+system':
+                m['creds']['system'] = 'all'
             m.pop('creds_as')
+        m.pop('from_file', None)
         model_cases.append(m)
     from common import run_batch
     from world import enc_case, dec_answer, run_impl_many
@@ -119,7 +135,7 @@ def run(run, binfo):
     run.rule = ('the complete table of the quantifier: every ordered non-empty subset of {system, domain, project} and none as '
                 'scope types x 8 combinations of system scope / domain id / project id x both spellings (system, system_scope) '
                 'x enforce_scope x do_raise x allow/deny x rule overriding the registered default or not x by name or check '
-                'object x credentials as dict / RequestContext / policy values (%d rows; thorough adds foreign scope strings). '
+                'object x credentials as dict / RequestContext / policy values (also with the legacy system key set on the mapping) x override given by set_rules or in a loaded policy file (%d rows; thorough adds foreign scope strings). '
                 'Each row against the statement read directly and against the model. every row distinct' % len(cases))
     run.exhaustive = True
 
